@@ -54,6 +54,8 @@ func selftest() int {
 		{[]string{"internal/sandbox"}, &HarnessCfg{Name: "VerifC14_MountPointEscape", Pkg: sbPkg, Solver: "z3", Params: map[string]int64{"destlen": 4}}},
 		{[]string{"pkg/storage/jsondb"}, &HarnessCfg{Name: "VerifC18_JSONAddGet", Pkg: jsonPkg, Solver: "z3", Params: map[string]int64{"ops": 2}}},
 		{[]string{"pkg/storage/pebbledb"}, &HarnessCfg{Name: "VerifC05_StoreRoundTrip", Pkg: pebPkg, Solver: "cvc5", TimeoutMs: 60000}},
+		// validates the token-level json.Decoder model: every truncation shape is run on the real decoder
+		{[]string{"pkg/storage/pebbledb"}, &HarnessCfg{Name: "VerifC18_Migrate", Pkg: pebPkg, Solver: "z3", Params: map[string]int64{"sigs": 2}, MaxPaths: 2000000, Stubs: jsonStreamStubs()}},
 	}
 	replays, agree := 0, 0
 	for _, it := range items {
